@@ -3,6 +3,7 @@ package iavl
 // C11 Every version is a balanced ordered tree; lookups cost O(height).
 
 var _ = vReg("C11_Steps", C11_Steps)
+var _ = vReg("C11_ShapeStep", C11_ShapeStep)
 
 // C11_Steps: every history of Set/Remove/commit over an ordered pool (all insertion orders,
 // removals that empty subtrees, interleaved commits); at the end the working tree must be
@@ -10,15 +11,36 @@ var _ = vReg("C11_Steps", C11_Steps)
 // must be inverse, the AVL height bound must hold, and with nothing cached the number of
 // stored nodes read per lookup is bounded by 2h+2.
 func C11_Steps() {
-	cfg := &vHistCfg{name: "C11_Steps", nKeys: 4, lenVars: 1, valVars: 1, maxOps: 5,
+	cfg := &vHistCfg{name: "C11_Steps", nKeys: 4, lenVars: 1, valVars: 1, maxOps: 4,
 		ops:    []string{"set", "remove", "commit"},
-		caches: []int{0}, fast: []bool{false}, thresh: []int{0}, iso: true,
+		caches: []int{0}, fast: []bool{false}, thresh: []int{0}, avl: true,
 		final: c11Final}
 	if vTier() == "thorough" {
 		cfg.nKeys = 6
 		cfg.maxOps = 7
 	}
 	vStartHist(cfg).run()
+}
+
+// C11_ShapeStep: one Set or Remove with any key (present, absent between/below/above) from
+// every AVL+ tree of height <= H in every persistence pattern.
+func C11_ShapeStep() {
+	cfg := &vHistCfg{name: "C11_ShapeStep", lenVars: 1, valVars: 1, caches: []int{0}, fast: []bool{false}, thresh: []int{0}, avl: true}
+	maxH := 3
+	if vTier() == "thorough" {
+		maxH = 4
+	}
+	h := vShapeState(cfg, maxH, 1, []int{0, 1, 2})
+	if h.p.n > 0 {
+		switch vChoice("op", 2) {
+		case 0:
+			h.doSet(vChoice("key", h.p.n))
+		case 1:
+			h.doRemove(vChoice("key", h.p.n))
+		}
+	}
+	h.audit()
+	c11Final(h)
 }
 
 func c11Final(h *vHist) {
